@@ -55,6 +55,7 @@ def gen_cfg(rng):
     # the solver-specific settings (strategy, CrossProbability, ScalingFactor / radius, adaptive / xtol, imax) are documented as sticky:
     # a restored solver continued WITHOUT repeating them must follow the same trajectory as one that repeats them
     cfg['resume_settings'] = rng.choice(['repeat', 'plain'])
+    if rng.random() < 0.2: cfg['extra_args'] = [rng.choice([0.5, -1.0, 3.0])]      # cost(x, *ExtraArgs): the arguments are part of the saved state
     return cfg
 
 
@@ -83,7 +84,8 @@ def build(cfg, tmp, probe):
     ke = {} if cfg.get('evalmon_k') is None else {'k': cfg['evalmon_k']}
     if cfg['evalmon_kind'] == 'plain': s.SetEvaluationMonitor(Monitor(**ke))
     elif cfg['evalmon_kind'] == 'logging': s.SetEvaluationMonitor(LoggingMonitor(1, filename=os.path.join(tmp, 'eval.log'), new=True, **ke))
-    s.SetObjective(probe)
+    if cfg.get('extra_args'): s.SetObjective(probe, ExtraArgs=tuple(cfg['extra_args']))
+    else: s.SetObjective(probe)
     return s
 
 
@@ -119,8 +121,7 @@ def run_boundaries(rng, obs, tmp):
     from mystic.solvers import LoadSolver
     cfg = gen_cfg(rng)
     obs.desc = cfg
-    raw = K.make_cost(cfg['cost'])
-    probe = K.CostProbe(raw)
+    probe = K.probe_for(cfg)
     s = build(cfg, tmp, probe)
     kw = K.step_kwargs(cfg)
     N = cfg['steps']
@@ -199,7 +200,7 @@ def run_final_dump(rng, obs, tmp):
     cfg['freq'] = rng.choice([1, 2, 3, 5, 50])          # also frequencies that never fire before the stop: the final dump is forced
     G = rng.randint(2, 7)
     obs.desc = dict(cfg, stop_after=G)
-    probe = K.CostProbe(K.make_cost(cfg['cost']))
+    probe = K.probe_for(cfg)
     s = build(cfg, tmp, probe)
     kw = K.step_kwargs(cfg)
     fn = os.path.join(tmp, 'final.pkl')
@@ -264,7 +265,7 @@ def run_restore_reconfigure(rng, obs, tmp):
     def drop(st):      # (the evaluation monitor is replaced in the 'evalmon' variant: compare everything else)
         return {q: v for q, v in st.items() if not (what == 'evalmon' and q in ('evalmon',))}
     random.seed(obs.seed); np.random.seed(obs.seed % (2 ** 32))
-    pa = K.CostProbe(K.make_cost(cfg['cost']))
+    pa = K.probe_for(cfg)
     a = build(cfg, tmp, pa)
     for _ in range(k): a.Step(**kw)
     st = rng_get()
@@ -301,7 +302,7 @@ def run_copies(rng, obs, tmp):
     cfg = gen_cfg(rng)
     cfg['stepmon_kind'] = 'plain'
     obs.desc = cfg
-    probe = K.CostProbe(K.make_cost(cfg['cost']))
+    probe = K.probe_for(cfg)
     s = build(cfg, tmp, probe)
     kw = K.step_kwargs(cfg)
     k = rng.randint(1, cfg['steps'] - 2)
@@ -348,7 +349,7 @@ from mv import solverkit as K
 from mv.props import c06
 cfg = json.loads(%(cfg)r)
 random.seed(cfg['seed']); np.random.seed(cfg['seed'] %% (2**32))
-probe = K.CostProbe(K.make_cost(cfg['cost']))
+probe = K.probe_for(cfg)
 s = c06.build(cfg, %(tmp)r, probe)
 kw = K.step_kwargs(cfg)
 import pickle
